@@ -604,15 +604,6 @@ Theorem repr_nonfinite_refuted :
   exists v, py_val v = true /\ py_literal_eval (py_repr v) = None.
 Proof. exists (PList [PFloat (s2l "inf")]). vm_compute. auto. Qed.
 
-(* wf_val is py_val minus the non-finite lexemes *)
-Fixpoint has_nonfinite (v : pyval) : bool :=
-  match v with
-  | PFloat lx => nonfinite_lex lx && negb (float_tok lx)
-  | PList l => existsb has_nonfinite l
-  | PDict kv => existsb (fun p => has_nonfinite (snd p)) kv
-  | _ => false
-  end.
-
 Lemma wf_of_py v : py_val v = true -> has_nonfinite v = false -> wf_val v = true.
 Proof.
   induction v using pyval_ind2; simpl; auto.
@@ -624,4 +615,10 @@ Proof.
     clear K. induction kv as [|[k x] r IHr]; simpl; auto. inversion H as [|? ? Hx Hr]; subst. simpl in *.
     apply andb_true_iff in A as [A1 A2]. apply orb_false_iff in B as [B1 B2].
     rewrite Hx by assumption. simpl. apply IHr; assumption.
+Qed.
+
+Lemma wf_of_finite v : finite_val v = true -> wf_val v = true.
+Proof.
+  unfold finite_val. intro H. apply andb_true_iff in H as [A B]. apply negb_true_iff in B.
+  apply wf_of_py; assumption.
 Qed.
